@@ -148,11 +148,20 @@ theorem isActive_discardRef_sub (st : Arc R) (p ep q : String) (h : isActive (di
 theorem bool_eq_of_iff {b c : Bool} (h : b = true ↔ c = true) : b = c := by
   cases b <;> cases c <;> simp_all
 
+theorem putRef_out (st : Arc R) (p ep : String) : (putRef p ep st).out = st.out := by
+  unfold putRef; split <;> rfl
+
+theorem putRef_profiles (st : Arc R) (p ep : String) : (putRef p ep st).profiles = st.profiles := by
+  unfold putRef; split <;> rfl
+
+theorem outOf_congr {st st' : Arc R} (h : st'.profiles = st.profiles) (q : String) : outOf st' q = outOf st q := by
+  unfold outOf; rw [h]
+
 theorem addOne_view {st : Arc R} (ep id : String) (h : ViewInv st) : ViewInv (addOne ep st id) := by
   unfold addOne
   by_cases ha : isActive st id = true
   · simp only [ha, if_true]
-    apply viewInv_of_same h rfl rfl
+    refine viewInv_of_same (st' := putRef id ep st) h (putRef_out ..) (putRef_profiles ..) ?_
     intro q
     apply bool_eq_of_iff
     rw [isActive_putRef]
@@ -172,14 +181,14 @@ theorem addOne_view {st : Arc R} (ep id : String) (h : ViewInv st) : ViewInv (ad
         · exact h'
         · exact absurd h' hq
       · exact Or.inl
-    rw [this]
+    rw [this, putRef_out, outOf_congr (putRef_profiles st id ep)]
     exact h q
 
 theorem removeOne_view {st : Arc R} (ep id : String) (h : ViewInv st) : ViewInv (removeOne ep st id) := by
   unfold removeOne
   by_cases ha : isActive (discardRef id ep st) id = true
   · simp only [ha, if_true]
-    apply viewInv_of_same h rfl rfl
+    refine viewInv_of_same (st' := discardRef id ep st) h rfl rfl ?_
     intro q
     by_cases hq : q = id
     · subst hq; rw [ha, isActive_discardRef_sub st q ep q ha]
@@ -226,8 +235,9 @@ theorem updateProfileRules_view {st : Arc R} (p : String) (v : Option R) (h : Vi
         have := h q
         by_cases hq : q = p
         · subst hq
-          have hna : isActive st q = false := by simpa using hact
-          have hna' : isActive ({ st with profiles := alSet q r st.profiles } : Arc R) q = false := hna
+          have hna' : isActive ({ st with profiles := alSet q r st.profiles } : Arc R) q = false := by
+            simpa using hact
+          have hna : isActive st q = false := hna'
           rw [hna'] ; rw [hna] at this; simpa using this
         · simp only [outOf, alGet_alSet, hq, if_false] at this ⊢
           exact this
@@ -248,8 +258,9 @@ theorem updateProfileRules_view {st : Arc R} (p : String) (v : Option R) (h : Vi
       have := h q
       by_cases hq : q = p
       · subst hq
-        have hna : isActive st q = false := by simpa using hact
-        have hna' : isActive ({ st with profiles := alErase q st.profiles } : Arc R) q = false := hna
+        have hna' : isActive ({ st with profiles := alErase q st.profiles } : Arc R) q = false := by
+          simpa using hact
+        have hna : isActive st q = false := hna'
         rw [hna']; rw [hna] at this; simpa using this
       · simp only [outOf, alGet_alErase, hq, if_false] at this ⊢
         exact this
@@ -267,6 +278,272 @@ theorem run_view {st : Arc R} (us : List (Upd R)) (h : ViewInv st) : ViewInv (ru
 
 theorem viewInv_new : ViewInv (Arc.new R) := by
   intro p; simp [Arc.new, view, isActive]
+
+/-! ### the reference multidict mirrors the endpoints' profile lists -/
+
+def diffStep (acc : List String × List String) (id : String) : List String × List String :=
+  if id ∈ acc.1 then (acc.1.filter (fun x => x ≠ id), acc.2)
+  else (acc.1, if id ∈ acc.2 then acc.2 else acc.2 ++ [id])
+
+theorem diffIDs_eq (old new : List String) : diffIDs old new = new.foldl diffStep (old.eraseDups, []) := rfl
+
+theorem diff_removed (l : List String) (acc : List String × List String) (p : String) :
+    p ∈ (l.foldl diffStep acc).1 ↔ p ∈ acc.1 ∧ p ∉ l := by
+  induction l generalizing acc with
+  | nil => simp
+  | cons a l ih =>
+    rw [List.foldl_cons, ih]
+    unfold diffStep
+    by_cases h : a ∈ acc.1
+    · simp only [h, if_true, List.mem_filter, decide_eq_true_eq, List.mem_cons, not_or]
+      constructor
+      · rintro ⟨⟨h1, h2⟩, h3⟩; exact ⟨h1, h2, h3⟩
+      · rintro ⟨h1, h2, h3⟩; exact ⟨⟨h1, h2⟩, h3⟩
+    · simp only [h, if_false, List.mem_cons, not_or]
+      constructor
+      · rintro ⟨h1, h3⟩; exact ⟨h1, fun e => h (e ▸ h1), h3⟩
+      · rintro ⟨h1, _, h3⟩; exact ⟨h1, h3⟩
+
+theorem diff_added_sub (l : List String) (acc : List String × List String) (p : String)
+    (h : p ∈ (l.foldl diffStep acc).2) : p ∈ acc.2 ∨ p ∈ l := by
+  induction l generalizing acc with
+  | nil => exact Or.inl h
+  | cons a l ih =>
+    rw [List.foldl_cons] at h
+    rcases ih _ h with h' | h'
+    · unfold diffStep at h'
+      by_cases ha : a ∈ acc.1
+      · simp only [ha, if_true] at h'; exact Or.inl h'
+      · simp only [ha, if_false] at h'
+        by_cases hb : a ∈ acc.2
+        · simp only [hb, if_true] at h'; exact Or.inl h'
+        · simp only [hb, if_false, List.mem_append, List.mem_singleton] at h'
+          rcases h' with h' | rfl
+          · exact Or.inl h'
+          · exact Or.inr (List.mem_cons_self ..)
+    · exact Or.inr (List.mem_cons_of_mem _ h')
+
+theorem diff_added_sup (l : List String) (acc : List String × List String) (p : String)
+    (h : p ∈ acc.2 ∨ (p ∈ l ∧ p ∉ acc.1)) : p ∈ (l.foldl diffStep acc).2 := by
+  induction l generalizing acc with
+  | nil =>
+    rcases h with h | ⟨h, _⟩
+    · exact h
+    · cases h
+  | cons a l ih =>
+    rw [List.foldl_cons]
+    apply ih
+    unfold diffStep
+    by_cases ha : a ∈ acc.1
+    · simp only [ha, if_true, List.mem_filter, decide_eq_true_eq, not_and, Classical.not_not]
+      rcases h with h | ⟨h, hn⟩
+      · exact Or.inl h
+      · rcases List.mem_cons.1 h with rfl | h
+        · exact absurd ha hn
+        · exact Or.inr ⟨h, fun h' => absurd h' hn⟩
+    · simp only [ha, if_false]
+      by_cases hb : a ∈ acc.2
+      · simp only [hb, if_true]
+        rcases h with h | ⟨h, hn⟩
+        · exact Or.inl h
+        · rcases List.mem_cons.1 h with rfl | h
+          · exact Or.inl hb
+          · exact Or.inr ⟨h, hn⟩
+      · simp only [hb, if_false, List.mem_append, List.mem_singleton]
+        rcases h with h | ⟨h, hn⟩
+        · exact Or.inl (Or.inl h)
+        · rcases List.mem_cons.1 h with rfl | h
+          · exact Or.inl (Or.inr rfl)
+          · exact Or.inr ⟨h, hn⟩
+
+/-- `profileIDToEndpointKeys` holds (p, ep) exactly when endpoint `ep` currently lists `p`. -/
+def RefInv (st : Arc R) : Prop :=
+  ∀ p ep, (p, ep) ∈ st.refs ↔ ∃ ids, alGet ep st.epProfiles = some ids ∧ p ∈ ids
+
+theorem sendProfileUpdate_frame (p : String) (r : Option R) (st : Arc R) :
+    (sendProfileUpdate p r st).refs = st.refs ∧ (sendProfileUpdate p r st).epProfiles = st.epProfiles ∧
+    (sendProfileUpdate p r st).profiles = st.profiles := by
+  unfold sendProfileUpdate
+  split
+  · cases r <;> exact ⟨rfl, rfl, rfl⟩
+  · exact ⟨rfl, rfl, rfl⟩
+
+theorem addOne_frame (ep id : String) (st : Arc R) :
+    (∀ x, x ∈ (addOne ep st id).refs ↔ x ∈ st.refs ∨ x = (id, ep)) ∧
+    (addOne ep st id).epProfiles = st.epProfiles ∧ (addOne ep st id).profiles = st.profiles := by
+  have hput : (∀ x, x ∈ (putRef id ep st).refs ↔ x ∈ st.refs ∨ x = (id, ep)) ∧
+      (putRef id ep st).epProfiles = st.epProfiles ∧ (putRef id ep st).profiles = st.profiles := by
+    unfold putRef
+    by_cases hm : (id, ep) ∈ st.refs
+    · rw [if_pos hm]
+      refine ⟨fun x => ⟨Or.inl, ?_⟩, rfl, rfl⟩
+      rintro (h | rfl); exact h; exact hm
+    · rw [if_neg hm]
+      refine ⟨fun x => ?_, rfl, rfl⟩
+      simp
+  unfold addOne
+  simp only
+  split
+  · exact hput
+  · obtain ⟨f1, f2, f3⟩ := sendProfileUpdate_frame id (alGet id (putRef id ep st).profiles) (putRef id ep st)
+    refine ⟨fun x => ?_, f2.trans hput.2.1, f3.trans hput.2.2⟩
+    rw [f1]; exact hput.1 x
+
+theorem removeOne_frame (ep id : String) (st : Arc R) :
+    (∀ x, x ∈ (removeOne ep st id).refs ↔ x ∈ st.refs ∧ x ≠ (id, ep)) ∧
+    (removeOne ep st id).epProfiles = st.epProfiles ∧ (removeOne ep st id).profiles = st.profiles := by
+  have hd : (∀ x, x ∈ (discardRef id ep st).refs ↔ x ∈ st.refs ∧ x ≠ (id, ep)) := by
+    intro x; unfold discardRef; simp
+  unfold removeOne
+  simp only
+  split
+  · exact ⟨hd, rfl, rfl⟩
+  · obtain ⟨f1, f2, f3⟩ := sendProfileUpdate_frame id (alGet id (discardRef id ep st).profiles) (discardRef id ep st)
+    refine ⟨fun x => ?_, f2, f3⟩
+    rw [f1]; exact hd x
+
+theorem foldl_addOne_frame (ep : String) (l : List String) (st : Arc R) :
+    (∀ x, x ∈ (l.foldl (addOne ep) st).refs ↔ x ∈ st.refs ∨ (x.2 = ep ∧ x.1 ∈ l)) ∧
+    (l.foldl (addOne ep) st).epProfiles = st.epProfiles := by
+  induction l generalizing st with
+  | nil => simp
+  | cons a l ih =>
+    rw [List.foldl_cons]
+    obtain ⟨h1, h2⟩ := ih (addOne ep st a)
+    obtain ⟨g1, g2, _⟩ := addOne_frame ep a st
+    refine ⟨fun x => ?_, h2.trans g2⟩
+    rw [h1, g1]
+    simp only [List.mem_cons]
+    constructor
+    · rintro ((h | rfl) | ⟨h, h'⟩)
+      · exact Or.inl h
+      · exact Or.inr ⟨rfl, Or.inl rfl⟩
+      · exact Or.inr ⟨h, Or.inr h'⟩
+    · rintro (h | ⟨h, rfl | h'⟩)
+      · exact Or.inl (Or.inl h)
+      · exact Or.inl (Or.inr (by cases x; simp_all))
+      · exact Or.inr ⟨h, h'⟩
+
+theorem foldl_removeOne_frame (ep : String) (l : List String) (st : Arc R) :
+    (∀ x, x ∈ (l.foldl (removeOne ep) st).refs ↔ x ∈ st.refs ∧ ¬ (x.2 = ep ∧ x.1 ∈ l)) ∧
+    (l.foldl (removeOne ep) st).epProfiles = st.epProfiles := by
+  induction l generalizing st with
+  | nil => simp
+  | cons a l ih =>
+    rw [List.foldl_cons]
+    obtain ⟨h1, h2⟩ := ih (removeOne ep st a)
+    obtain ⟨g1, g2, _⟩ := removeOne_frame ep a st
+    refine ⟨fun x => ?_, h2.trans g2⟩
+    rw [h1, g1]
+    simp only [List.mem_cons, not_and, not_or]
+    constructor
+    · rintro ⟨⟨h, hne⟩, h'⟩
+      refine ⟨h, fun he => ⟨?_, h' he⟩⟩
+      rintro rfl
+      exact hne (by cases x; simp_all)
+    · rintro ⟨h, h'⟩
+      refine ⟨⟨h, ?_⟩, fun he => (h' he).2⟩
+      rintro rfl
+      exact (h' rfl).1 rfl
+
+theorem updateEndpointProfileIDs_ref {st : Arc R} (ep : String) (ids : List String) (h : RefInv st) :
+    RefInv (updateEndpointProfileIDs ep ids st) := by
+  intro p e
+  unfold updateEndpointProfileIDs
+  simp only
+  obtain ⟨r1, r2⟩ := foldl_removeOne_frame (R := R) ep
+    (diffIDs ((alGet ep st.epProfiles).getD []) ids).1
+    ((diffIDs ((alGet ep st.epProfiles).getD []) ids).2.foldl (addOne ep)
+      { st with epProfiles := if ids.isEmpty then alErase ep st.epProfiles else alSet ep ids st.epProfiles })
+  obtain ⟨a1, a2⟩ := foldl_addOne_frame (R := R) ep (diffIDs ((alGet ep st.epProfiles).getD []) ids).2
+    { st with epProfiles := if ids.isEmpty then alErase ep st.epProfiles else alSet ep ids st.epProfiles }
+  rw [r1, a1, r2, a2]
+  simp only
+  have hold : ∀ q, q ∈ (alGet ep st.epProfiles).getD [] ↔ (q, ep) ∈ st.refs := by
+    intro q
+    rw [h q ep]
+    cases alGet ep st.epProfiles with
+    | none => simp
+    | some l => simp
+  have hrem : ∀ q, q ∈ (diffIDs ((alGet ep st.epProfiles).getD []) ids).1 ↔ (q, ep) ∈ st.refs ∧ q ∉ ids := by
+    intro q
+    rw [diffIDs_eq, diff_removed]
+    simp only [List.mem_eraseDups, hold]
+  by_cases he : e = ep
+  · subst he
+    have hget : (∃ l, alGet e (if ids.isEmpty then alErase e st.epProfiles else alSet e ids st.epProfiles) = some l ∧ p ∈ l) ↔ p ∈ ids := by
+      by_cases hemp : ids.isEmpty
+      · simp only [hemp, if_true, alGet_alErase]
+        have : ids = [] := List.isEmpty_iff.1 hemp
+        simp [this]
+      · simp only [hemp, Bool.false_eq_true, if_false, alGet_alSet]
+        simp
+    rw [hget, hrem]
+    simp only [true_and]
+    constructor
+    · rintro ⟨h1 | h1, h2⟩
+      · exact Classical.byContradiction (fun hn => h2 ⟨h1, hn⟩)
+      · rw [diffIDs_eq] at h1
+        rcases diff_added_sub _ _ _ h1 with h1 | h1
+        · cases h1
+        · exact h1
+    · intro hp
+      refine ⟨?_, fun h2 => h2.2 hp⟩
+      by_cases hr : (p, e) ∈ st.refs
+      · exact Or.inl hr
+      · right
+        rw [diffIDs_eq]
+        apply diff_added_sup
+        right
+        refine ⟨hp, ?_⟩
+        simp only [List.mem_eraseDups, hold]
+        exact hr
+  · have hne : ¬ ((p, e).2 = ep) := he
+    simp only [he, false_and, or_false, not_false_eq_true, and_true]
+    rw [h p e]
+    by_cases hemp : ids.isEmpty
+    · simp only [hemp, if_true, alGet_alErase, he, if_false]
+    · simp only [hemp, Bool.false_eq_true, if_false, alGet_alSet, he]
+
+theorem updateProfileRules_ref {st : Arc R} (p : String) (v : Option R) (h : RefInv st) :
+    RefInv (updateProfileRules p v st) := by
+  have key : (updateProfileRules p v st).refs = st.refs ∧ (updateProfileRules p v st).epProfiles = st.epProfiles := by
+    unfold updateProfileRules
+    cases v with
+    | some r =>
+      simp only
+      split
+      · exact ⟨rfl, rfl⟩
+      · split
+        · obtain ⟨f1, f2, _⟩ := sendProfileUpdate_frame p (some r) ({ st with profiles := alSet p r st.profiles } : Arc R)
+          exact ⟨f1, f2⟩
+        · exact ⟨rfl, rfl⟩
+    | none =>
+      simp only
+      split
+      · obtain ⟨f1, f2, _⟩ := sendProfileUpdate_frame p none ({ st with profiles := alErase p st.profiles } : Arc R)
+        exact ⟨f1, f2⟩
+      · exact ⟨rfl, rfl⟩
+  intro q e
+  rw [key.1, key.2]
+  exact h q e
+
+theorem run_ref {st : Arc R} (us : List (Upd R)) (h : RefInv st) : RefInv (run st us) := by
+  unfold run
+  induction us generalizing st with
+  | nil => exact h
+  | cons u us ih =>
+    rw [List.foldl_cons]
+    apply ih
+    cases u with
+    | endpoint ep ids =>
+      cases ids with
+      | some ids => exact updateEndpointProfileIDs_ref ep ids h
+      | none => exact updateEndpointProfileIDs_ref ep [] h
+    | profileRules p r => exact updateProfileRules_ref p r h
+
+theorem refInv_new : RefInv (Arc.new R) := by
+  intro p ep; simp [Arc.new]
 
 end
 end CalicoVerif.C05
